@@ -97,3 +97,64 @@ Example quoted_example :
   spec_quoted_line q_scfg q_outer q_inner (srow_of q_row) = Some (u "<< <http://e/7> <http://e/p> ""x y"" >> <http://e/certainty> ""0.9""").
 Proof. vm_compute. split; reflexivity. Qed.
 Print Assumptions quoted_example.
+
+(* THE WHOLE DOCUMENT (quoted subject maps, one level, over the same rows): for documents whose triples maps are plain (constants,
+   references, templates) or quote a plain triples map of the document in their subject map, asserted or not, what the engine
+   materialises from the normalised rule table (one copy of every quoting rule per rule of the quoted map) over the delivered rows
+   is exactly what the generation rules read off the surface document: a quoting triples map yields, for every row, one statement
+   << s p o >> p' o' [g] per triple s p o that the quoted map generates FOR THAT ROW and places in at least one graph -- both output
+   formats, every document, every table.  The hypotheses are the decidable predicates of Model/Fragment.v. *)
+From Morph Require Import Model.Fragment Proofs.DocSpecP Proofs.DocEngineP Proofs.DocJoinP Proofs.DocQuotedP.
+Theorem document_rules_with_quoted_subjects_are_rule_table_rules : forall scfg fe tables d0 rules,
+  quoted_doc d0 = true -> normalise d0 = Ok rules -> nodupb (map r_id rules) = true ->
+  forall x, In x (spec_lines scfg fe d0 tables) <->
+    (exists rl sr, In rl rules /\ r_asserted rl = true /\ r_sk rl <> KQuoted /\ In sr (tables (r_src rl)) /\ doc_rule_line scfg rl sr = Some x) \/
+    (exists rl b sr, In rl rules /\ r_asserted rl = true /\ r_sk rl = KQuoted /\ find_rule rules (r_sv rl) = Some b /\
+                     In sr (tables (r_src rl)) /\ doc_quoted_line scfg rl b sr = Some x).
+Proof. exact doc_spec_is_rule_spec_quoted. Qed.
+Print Assumptions document_rules_with_quoted_subjects_are_rule_table_rules.
+Theorem engine_document_with_quoted_subjects_is_generation_rules_document : forall cfg fe scfg raw,
+  cfg_agree cfg scfg -> c_nquads cfg = s_nquads scfg -> s_na scfg = c_na cfg ->
+  forall d0 rules l,
+    quoted_doc d0 = true -> normalise d0 = Ok rules -> nodupb (map r_id rules) = true ->
+    (forall rl, In rl rules -> simple_rule rl \/ quoting_rule_ok rules rl) ->
+    (forall rl rw n, In rl rules -> In rw (raw (r_src rl)) -> In n (rule_ref_set fe rules rl) -> assoc n rw <> None) ->
+    materialize_rules cfg fe rules (delivered cfg raw) = Ok l ->
+    forall x, In x l <-> In x (spec_lines scfg fe d0 (spec_tables raw)).
+Proof. exact engine_document_is_spec_document_quoted. Qed.
+Print Assumptions engine_document_with_quoted_subjects_is_generation_rules_document.
+Theorem quoted_fragment_is_decidable : forall d0, theorem_applies_quoted d0 = true ->
+  quoted_doc d0 = true /\ exists rules, normalise d0 = Ok rules /\ nodupb (map r_id rules) = true /\ forall rl, In rl rules -> simple_rule rl \/ quoting_rule_ok rules rl.
+Proof. exact theorem_applies_quoted_ok. Qed.
+Print Assumptions quoted_fragment_is_decidable.
+
+(* non-vacuity: a non-asserted map with two predicate-object maps and a graph map, quoted by an asserted map; a NULL in a column of the
+   quoted map; both output formats *)
+Definition tmq (k : mkind) (v : string) : tmap := mk_tmap k (u v) CkIri None.
+Definition dq : document :=
+  [{| t_id := u "#Inner"; t_src := u "S"; t_nonasserted := true; t_subj := tmq KTempl "http://e/{id}"; t_sjoins := [];
+      t_classes := []; t_sgraphs := [];
+      t_poms := [{| p_preds := [tmq KConst "http://e/name"]; p_objs := [{| o_tm := tmq KRef "name"; o_lang := None; o_dt := None; o_joins := [] |}]; p_graphs := [] |};
+                 {| p_preds := [tmq KConst "http://e/age"]; p_objs := [{| o_tm := tmq KRef "age"; o_lang := None; o_dt := None; o_joins := [] |}]; p_graphs := [tmq KTempl "http://e/g/{id}"] |}] |};
+   {| t_id := u "#Outer"; t_src := u "S"; t_nonasserted := false; t_subj := mk_tmap KQuoted (u "#Inner") CkIri None; t_sjoins := [];
+      t_classes := []; t_sgraphs := [];
+      t_poms := [{| p_preds := [tmq KConst "http://e/saidBy"]; p_objs := [{| o_tm := tmq KTempl "http://e/src/{src}"; o_lang := None; o_dt := None; o_joins := [] |}]; p_graphs := [] |}] |}].
+Definition rawq (src : ustr) : list rawrow :=
+  [[(u "id", CStr (u "1")); (u "name", CStr (u "Ann")); (u "age", CStr (u "30")); (u "src", CStr (u "a"))];
+   [(u "id", CStr (u "2")); (u "name", CNone); (u "age", CStr (u "41")); (u "src", CStr (u "b"))]].
+Definition cfgq (nq : bool) : ecfg := {| c_nquads := nq; c_printable := true; c_safe := []; c_na := [[]] |}.
+Definition scfgq (nq : bool) : scfg := {| s_nquads := nq; s_printable := true; s_safe := []; s_na := [[]] |}.
+Definition feq : fenv := {| fn_params := fun _ => None; fn_apply := fun _ _ => FRaise; fn_table := [] |}.
+Example end_to_end_quoted_example : forall nq,
+  theorem_applies_quoted dq = true /\
+  match normalise dq with
+  | Ok rules => match materialize_rules (cfgq nq) feq rules (delivered (cfgq nq) rawq) with
+                | Ok l => forallb (fun x => mem x (spec_lines (scfgq nq) feq dq (spec_tables rawq))) l = true
+                          /\ length l = length (spec_lines (scfgq nq) feq dq (spec_tables rawq)) /\ length l = 3%nat
+                          /\ mem (u "<< <http://e/1> <http://e/name> ""Ann"" >> <http://e/saidBy> <http://e/src/a>" ++ (if nq then [32] else [])) l = true
+                | Err _ => False
+                end
+  | Err _ => False
+  end.
+Proof. intros [|]; vm_compute; repeat split; reflexivity. Qed.
+Print Assumptions end_to_end_quoted_example.
